@@ -679,6 +679,13 @@ class Executor:
         if bbname in loop_heads(fn):
             n = fr.visits.get(bbname, 0) + 1
             fr.visits[bbname] = n
+            if n == 1 and (fn.short(), bbname) in getattr(self.cfg, "havoc_heads", ()):
+                # the iteration starts from an ARBITRARY state of everything an earlier iteration may have changed
+                for loc in sorted(loop_carried_locals(fn, bbname)):
+                    o = fr.locals.get(loc)
+                    if o is not None and o.value is not None and loc != "_0":
+                        o.value = self.fresh(fn.locals.get(loc), "lc%s" % loc)
+                self.event(st, "havoc_loop_state", bbname, [])
             bound = self.cfg.loop_bounds.get((fn.short(), bbname), self.cfg.unroll)
             if n > bound + 1:
                 if (fn.short(), bbname) in getattr(self.cfg, "exit_heads", ()) and blk.term and blk.term[0] == "call" \
@@ -1019,6 +1026,72 @@ def successors(blk):
     if k == "call":
         return [t[4]["return"]] if "return" in t[4] else []
     return []
+
+
+def _root_local(place):
+    while isinstance(place, tuple) and place and place[0] != "local":
+        nxt = None
+        for x in place[1:]:
+            if isinstance(x, tuple):
+                nxt = x
+                break
+        if nxt is None:
+            return None
+        place = nxt
+    return place[1] if isinstance(place, tuple) and len(place) > 1 else None
+
+
+def loop_carried_locals(fn, head):
+    """locals that an iteration of the natural loop with this head may leave changed for the next one: assigned in the
+    loop body, destination of a call there, or borrowed mutably there"""
+    key = ("_carried", head)
+    if hasattr(fn, "_carried") and head in fn._carried:
+        return fn._carried[head]
+    preds = {}
+    for n, b in fn.blocks.items():
+        for s_ in successors(b):
+            preds.setdefault(s_, []).append(n)
+    reach, stack = set(), [head]
+    while stack:
+        n = stack.pop()
+        if n in reach or n not in fn.blocks:
+            continue
+        reach.add(n)
+        stack += successors(fn.blocks[n])
+    tails = [t for t in preds.get(head, []) if t in reach]
+    body, stack = {head}, list(tails)
+    while stack:
+        n = stack.pop()
+        if n in body:
+            continue
+        body.add(n)
+        stack += preds.get(n, [])
+    out = set()
+    for n in body:
+        b = fn.blocks[n]
+        for st_ in b.stmts:
+            if st_[0] == "assign":
+                r = _root_local(st_[1])
+                if r:
+                    out.add(r)
+                rv = st_[2]
+                if isinstance(rv, tuple) and rv and rv[0] == "ref" and "mut" in (rv[1] or ""):
+                    r2 = _root_local(rv[2])
+                    if r2:
+                        out.add(r2)
+            elif st_[0] == "setdiscr":
+                r = _root_local(st_[1])
+                if r:
+                    out.add(r)
+        t = b.term
+        if t and t[0] == "call":
+            r = _root_local(t[1])
+            if r:
+                out.add(r)
+    if not hasattr(fn, "_carried"):
+        fn._carried = {}
+    fn._carried[head] = out
+    return out
 
 
 def loop_heads(fn):
